@@ -81,6 +81,9 @@ def occAt (g : List GProd) (p j : Nat) : Option XOcc :=
   | some (.t o) => some o
   | _ => none
 
+/-- the symbol a description's production table has at (production, position) -/
+def tableSym (d : ParserDesc) (p j : Nat) : Option PSym := (d.prods[p]?).bind (·.rhs[j]?)
+
 /-- expected directive `(production of the primary non-terminal, kind, target)` -/
 def parseDirective (s : String) : Option (Nat × TrKind × Nat) :=
   match s.splitOn ":" with
